@@ -51,12 +51,17 @@ func c12Check(c stage.Cfg) func(o *obs.Obs) string {
 
 func c12Scenarios(tier string) []e1lib.Scenario {
 	var out []e1lib.Scenario
+	dev := false
 	add := func(c stage.Cfg, bound int) {
 		var done []string
 		if !c.Cancel {
 			done = []string{"got-eof"}
 		}
-		out = append(out, e1lib.Scenario{Name: stageName(c), Root: func() { stage.Scenario(c) }, Check: c12Check(c), Bound: bound, Sample: c, RealDone: done})
+		name := stageName(c)
+		if dev {
+			name += fmt.Sprintf(" deviations<=%d", bound)
+		}
+		out = append(out, e1lib.Scenario{Name: name, Root: func() { stage.Scenario(c) }, Check: c12Check(c), Bound: bound, Deviations: dev, Sample: c, RealDone: done})
 	}
 	var shapes [][]int
 	maxLen, maxIn := 2, 3
@@ -92,6 +97,35 @@ func c12Scenarios(tier string) []e1lib.Scenario {
 			}
 		}
 	}
+	// element type any: the first element of the first input is a nil interface value
+	for _, ins := range [][]int{{1}, {2}, {1, 1}, {2, 1}} {
+		for cp := 0; cp <= 1; cp++ {
+			add(stage.Cfg{Stage: "join", Cap: cp, Inputs: ins, Stop: -1, Any: true}, -1)
+		}
+	}
+	// wide fan-in: 5..24 inputs of 0..2 elements, explored up to a deviation bound
+	dev = true
+	db := 2
+	if tier == "thorough" {
+		db = 3
+	}
+	for n := 5; n <= 24; n++ {
+		if tier == "quick" && n > 9 && n%4 != 1 && n != 23 && n != 24 {
+			continue
+		}
+		ones, mixed := make([]int, n), make([]int, n)
+		for i := range ones {
+			ones[i], mixed[i] = 1, (i+1)%3
+		}
+		b := db
+		if n > 9 {
+			b-- // 50 threads and 300 steps: the number of executions grows with (threads x steps)^bound
+		}
+		add(stage.Cfg{Stage: "join", Cap: 0, Inputs: ones, Stop: -1}, b)
+		add(stage.Cfg{Stage: "join", Cap: 1, Inputs: mixed, Stop: -1}, b)
+		add(stage.Cfg{Stage: "join", Cap: 0, Inputs: mixed, Stop: -1, Cancel: true}, b)
+	}
+	dev = false
 	if tier == "thorough" {
 		add(stage.Cfg{Stage: "join", Cap: 0, Inputs: []int{1, 1, 1, 1}, Stop: -1}, -1)
 		add(stage.Cfg{Stage: "join", Cap: 0, Inputs: []int{3, 2}, Stop: -1}, -1)
@@ -102,6 +136,6 @@ func c12Scenarios(tier string) []e1lib.Scenario {
 
 func propC12() drv.Property {
 	return table("C12",
-		"one case = Join over 0..3 inputs with 0..2 distinct elements each (every combination), input capacity 0..1, one producer thread per input, one draining consumer, canceller absent or free; every interleaving of sends, closes, copier goroutines and receives explored (state-cached; quick: up to 4 elements on <=2 inputs, up to 3 on 3 inputs, unbounded; thorough: every combination up to 2+2+2, unbounded below 6 elements, preemption bound 4 at 6 (3 with the free canceller)); the consumer loads the number of producers that have closed at the moment it observes the output's close; non-trivial = more than one distinct terminal outcome",
+		"one case = Join over 0..3 inputs with 0..2 distinct elements each (every combination), input capacity 0..1, one producer thread per input, one draining consumer, canceller absent or free; every interleaving of sends, closes, copier goroutines and receives explored (state-cached; quick: up to 4 elements on <=2 inputs, up to 3 on 3 inputs, unbounded; thorough: every combination up to 2+2+2, unbounded below 6 elements, preemption bound 4 at 6 (3 with the free canceller)); Join over any-typed inputs whose first element is a nil interface value; wide fan-in of 5..24 inputs with 0..2 elements each explored up to 2 (thorough 3) deviations from the default schedule (one less above 9 inputs); the consumer loads the number of producers that have closed at the moment it observes the output's close; non-trivial = more than one distinct terminal outcome",
 		commonAssumptions, c12Scenarios)
 }
